@@ -95,6 +95,22 @@ pub fn gen_value(src: &mut Src, depth_left: usize, cfg: &GenCfg) -> J {
     } else {
         src.weighted(&[35, 30, 35])
     };
+    // now and then a wide container of scalars (lengths the small shapes never reach)
+    if kind != 0 && src.chance(1, 25) {
+        let n = 5 + src.below(12);
+        return if kind == 1 {
+            J::Arr((0..n).map(|_| gen_scalar(src)).collect())
+        } else {
+            let mut m: Vec<(String, J)> = vec![];
+            for i in 0..n {
+                let k = if src.bool() { format!("k{}", i) } else { gen_key(src, cfg) };
+                if !m.iter().any(|(k2, _)| *k2 == k) {
+                    m.push((k, gen_scalar(src)));
+                }
+            }
+            J::Obj(m)
+        };
+    }
     match kind {
         0 => gen_scalar(src),
         1 => {
